@@ -29,6 +29,8 @@ import (
 
 var provMu sync.Mutex
 
+var statOrderCmp, statLists, statUpdChecks int // evidence counters (the oracle runs single-threaded)
+
 func init() {
 	logging.Logger = zap.NewNop()
 	logging.N2n = zap.NewNop()
@@ -638,9 +640,13 @@ func oracle(ops, outs []string) *corr.Violation {
 					}
 				}
 			}
+			if lastUpd >= 0 {
+				statUpdChecks++
+			}
 			if f[0] == "pbs" {
 				continue
 			}
+			statLists++
 			for k := range hs {
 				for j := k + 1; j < len(hs); j++ {
 					if rks[k] == rks[j] {
@@ -693,6 +699,9 @@ func oracle(ops, outs []string) *corr.Violation {
 				if !eq {
 					continue
 				}
+				if _, ok := y.answers[q]; ok {
+					statOrderCmp++
+				}
 				if ans2, ok := y.answers[q]; ok && ans != ans2 {
 					mk("ranks-order-dependent", fmt.Sprintf("the same miner set and seeds, added in another order: %q answers %q instead of %q", q[:k], ans2, ans))
 				}
@@ -721,6 +730,9 @@ func main() {
 				return 12000
 			}
 			return 1200
+		},
+		Extra: func() map[string]interface{} {
+			return map[string]interface{}{"rank_answers_compared_across_insertion_orders": statOrderCmp, "notarized_lists_checked": statLists, "lists_checked_after_update": statUpdChecks}
 		},
 		Fixed: [][]string{
 			{"new 1", "blk 1 0 0 1", "addn 1", "blk 2 0 0 1,2", "upd 2", "nbs", "pbs", "tix 1", "tix 2"}, // update does not replace (known finding)
